@@ -2,6 +2,7 @@ import XlModel.Styles
 import XlModel.Lemmas.Styles
 import XlModel.Lemmas.StylesGrid
 import XlModel.Lemmas.StylesIdem
+import XlModel.Lemmas.StylesRead
 /-!
 # Property C17 — style registry is stable and deduplicating; styles resolve cell > row > column
 
@@ -371,6 +372,133 @@ theorem regular_examples :
     Regular initReg { zs with fill := ⟨['x'], 1, [], 0⟩ } = false ∧
     Regular initReg { zs with numFmt := 165 } = true := by
   decide +kernel
+
+/-! ## read-back of a newly registered definition -/
+
+/-- **getstyle_newstyle** (created case; "NewStyle returns an id whose GetStyle definition equals the
+requested style, default-normalised"): for every registry with the invariant and EVERY definition
+(no `Regular` needed), when `NewStyle` issues a new id, `GetStyle` of that id is `readBase` — each
+requested component read back from the record built from it, defaults for the components not
+requested, alignment and protection as requested — followed by the number format `n` that
+`newNumFmt` chose. `readback_font`, `readback_fill`, `readback_border` give the components in normal
+form, `getstyle_newstyle_builtin` / `_locale` / `_custom_new` evaluate the number format -/
+theorem getstyle_newstyle_created (dec : Str → Int) {r r' : Reg} {s s' : Style} {id : Nat} (w : WF r)
+    (h : newStyle r s = .ok (r', id, s')) (hnew : id = r.xfs.length) :
+    ∃ n r1, newNumFmt r (clampDecimal s) = .ok (r1, n) ∧ r'.numFmts = r1.numFmts ∧
+      getStyle dec r' id = .ok (extractNumFmt dec r' (some n) (readBase r (clampDecimal s))) := by
+  have hne : r.fonts ≠ [] := by
+    intro hh; have := w.fontsNe; rw [hh] at this; simp at this
+  unfold newStyle at h
+  cases hp : parseFormatStyleSet s with
+  | error e => rw [hp] at h; simp at h
+  | ok p =>
+    have hps := parse_ok hp
+    subst hps
+    rw [hp] at h
+    simp only at h
+    cases hg : getStyleID r (clampDecimal p) with
+    | error e => rw [hg] at h; simp at h
+    | ok q =>
+      obtain ⟨found, s3⟩ := q
+      rw [hg] at h
+      cases found with
+      | some id0 =>
+        simp only at h
+        injection h with h; injection h with h1 h2; injection h2 with h2 h3
+        subst h1; subst h2
+        have := getStyleID_lt hg
+        omega
+      | none =>
+        simp only at h
+        obtain ⟨sh, hn, hs⟩ := getStyleID_style hne hg
+        obtain ⟨n, r1, e1, e2, e3⟩ := created_reads dec w (createStyle_created w h)
+        rw [newNumFmt_shape sh] at e1
+        rw [readBase_shape r sh hn hs] at e3
+        exact ⟨n, r1, e1, e2, e3⟩
+
+/-- font read-back in normal form: a requested font reads as `Spec.normFont` (size below
+`MinFontSize` → 11, empty family → the default font's, unsupported underline dropped, colour
+upper-cased without `#`, out-of-range indexed colour → 0, theme and tint kept, `VertAlign` dropped);
+no font requested reads the default font -/
+theorem readback_font (r : Reg) (t : Style) :
+    (readBase r t).font =
+      match t.font with
+      | some f => some (Spec.normFont (match r.fonts with | d :: _ => d.name | [] => []) f)
+      | none => (r.fonts[0]?).map extractFont := readBase_font r t
+
+/-- fill read-back in normal form (`Spec.normFill`): valid pattern / gradient fills keep pattern
+index, all 17 shadings and their colours; invalid ones read `Fill{}`; none / unknown type read the default fill -/
+theorem readback_fill (r : Reg) (t : Style) :
+    (readBase r t).fill =
+      match Spec.normFill t.fill with
+      | some fl => fl
+      | none => (match r.fills[0]? with | some x => extractFills x | none => Fill.zero) := readBase_fill r t
+
+/-- border read-back: the record built by `newBorders` (last entry of a side wins, one shared
+diagonal line) read in the fixed order left, right, top, bottom, diagonalUp, diagonalDown; no border
+requested reads the default border. (A closed form independent of `newBorders` is not proved.) -/
+theorem readback_border (r : Reg) (t : Style) :
+    (readBase r t).border =
+      if t.border = [] then (match r.borders[0]? with | some x => extractBorders x | none => [])
+      else extractBorders (newBorders t.border) := readBase_border r t
+
+/-- alignment and protection read back exactly as requested -/
+theorem readback_alignment_protection (r : Reg) (t : Style) :
+    (readBase r t).alignment = t.alignment ∧ (readBase r t).protection = t.protection := ⟨rfl, rfl⟩
+
+/-- whole read-back for a built-in number format (incl. 0 = General): the id is kept and
+DecimalPlaces is what the external `extractNumFmtDecimal` says about the built-in code -/
+theorem getstyle_newstyle_builtin (dec : Str → Int) {r r' : Reg} {s s' : Style} {id : Nat} {code : Str} (w : WF r)
+    (h : newStyle r s = .ok (r', id, s')) (hnew : id = r.xfs.length)
+    (hc : (clampDecimal s).customNumFmt = none) (hb : builtIn (clampDecimal s).numFmt = some code) :
+    getStyle dec r' id = .ok
+      (if dec code ≠ -1 then
+        { readBase r (clampDecimal s) with numFmt := (clampDecimal s).numFmt, decimalPlaces := some (dec code) }
+       else { readBase r (clampDecimal s) with numFmt := (clampDecimal s).numFmt }) := by
+  obtain ⟨n, r1, e1, _, e3⟩ := getstyle_newstyle_created dec w h hnew
+  have hn : newNumFmt r (clampDecimal s) = .ok (r, (clampDecimal s).numFmt.toNat) := by
+    unfold newNumFmt; simp [hc, hb]
+  rw [hn] at e1
+  injection e1 with e1; injection e1 with _ e1
+  subst e1
+  have h0 := builtIn_nonneg (id := (clampDecimal s).numFmt) (by rw [hb]; rfl)
+  have hcast : (((clampDecimal s).numFmt.toNat : Nat) : Int) = (clampDecimal s).numFmt := by omega
+  rw [e3, extractNumFmt_builtin dec r' _ (code := code) (by rw [hcast]; exact hb), hcast]
+
+/-- whole read-back for a custom number format whose code is not stored yet: `readCode` — the code
+itself as CustomNumFmt, DecimalPlaces from `extractNumFmtDecimal`, NegRed iff the code contains
+`;[Red]`, NumFmt = the currency id whose (doubled) code it equals, else 0; the requested
+NumFmt / DecimalPlaces / NegRed are ignored -/
+theorem getstyle_newstyle_custom_new (dec : Str → Int) {r r' : Reg} {s s' : Style} {id : Nat} {c : Str} (w : WF r)
+    (h : newStyle r s = .ok (r', id, s')) (hnew : id = r.xfs.length)
+    (hc : (clampDecimal s).customNumFmt = some c) (hf : getCustomNumFmtID r c = none) :
+    getStyle dec r' id = .ok (readCode dec (readBase r (clampDecimal s)) c) := by
+  obtain ⟨n, r1, e1, e2, e3⟩ := getstyle_newstyle_created dec w h hnew
+  have hn : newNumFmt r (clampDecimal s) = .ok (setCustomNumFmt r c) := by
+    unfold newNumFmt; simp [hc, hf]
+  rw [hn] at e1
+  injection e1 with e1
+  have hr1 : r1 = (setCustomNumFmt r c).1 := by rw [e1]
+  have hn1 : n = (setCustomNumFmt r c).2 := by rw [e1]
+  have htop := topId_le_foldMax w
+  have hl : numFmtList r' = numFmtList r ++ [⟨n, c⟩] := by
+    rw [numFmtList_congr e2, hr1, hn1]; simp [setCustomNumFmt, numFmtList]
+  have hgt : topId r < n := by rw [hn1]; simp only [setCustomNumFmt]; omega
+  have hb : builtIn (n : Int) = none := by
+    cases hq : builtIn (n : Int) with
+    | none => rfl
+    | some v =>
+      have := builtIn_le (id := (n : Int)) (by rw [hq]; rfl)
+      have := w.topGe
+      omega
+  have hlang : isLangNumFmt (n : Int) = false := by
+    cases hq : isLangNumFmt (n : Int) with
+    | false => rfl
+    | true =>
+      have := lang_le (id := (n : Int)) hq
+      have := w.topGe
+      omega
+  rw [e3, extractNumFmt_new_code dec r' _ hl (fun nf hnf => by have := w.numTop nf hnf; omega) hb hlang]
 
 /-! ### non-vacuity and the positive cases -/
 
